@@ -449,6 +449,12 @@ def _replay_sequences():
             bad.append(f"target ({method}): mcintegral modifies its input arrays")
         if abs(a1[0] - e) > 1e-9 * abs(e):
             bad.append(f"target ({method}): first call {a1[0]} vs reference {e}")
+        egeo = np.sum(area) / len(t.times)
+        if abs(a1[1] - egeo) > 1e-9 * abs(egeo):
+            bad.append(f"target ({method}): geometry-only integral {a1[1]} vs reference {egeo} (only the path beyond the decay point counts; {int((L0 <= keep[3]).sum())} of {M} events decay behind the detector)")
+        npass = int(np.count_nonzero((area > 0) & (keep[0] >= 2.0)))
+        if int(a1[2]) != npass:
+            bad.append(f"target ({method}): passing count {a1[2]} vs reference {npass}")
         if abs(a2[0] - a1[0]) > 1e-12 * abs(a1[0]) or abs(a2[1] - a1[1]) > 1e-12 * abs(a1[1]):
             bad.append(f"target ({method}): second call gives {a2[0]} / {a2[1]} instead of {a1[0]} / {a1[1]}")
         with np.errstate(all="ignore"):
@@ -507,6 +513,65 @@ def _replay_wiring():
     return bad
 
 
+def _replay_wiring_spy():
+    """Real compute() (Diffuse, radio only, synchronous dask) with the SNR stage replaced by a stub that returns signed
+    values around +-threshold, and a spy on the geometry's mcintegral: the trigger array handed to the radio integral must
+    be exactly what the SNR stage returned, the cosine cos(max_cherenkov_angle), the threshold the configured one."""
+    import sys
+    import warnings
+
+    import dask
+    import numpy as np
+
+    import nuspacesim  # noqa
+    from nuspacesim.config import NssConfig
+
+    dask.config.set(scheduler="synchronous")
+    comp = sys.modules["nuspacesim.compute"]
+    bad = []
+    cfg = NssConfig()
+    cfg.simulation.mode = "Diffuse"
+    cfg.simulation.thrown_events = 300
+    cfg.detector.optical.enable = False
+    cfg.detector.radio.enable = True
+    cfg.detector.radio.snr_threshold = 5.0
+    seen = {}
+    real_snr = comp.calculate_snr
+
+    def fake_snr(efields, *a, **k):
+        n = len(np.asarray(efields))
+        seen["snr"] = np.array([(-1.0) ** i * (2.0 + 1.5 * (i % 5)) for i in range(n)])  # -9.5 ... 8: some below -threshold
+        return seen["snr"].copy()
+
+    geom_cls = comp.RegionGeom
+    real_mc = geom_cls.mcintegral
+
+    def spy(self, triggers, costheta, tauexitprob, threshold, *a, **k):
+        seen["args"] = (np.array(triggers, dtype=float), costheta, threshold)
+        return real_mc(self, triggers, costheta, tauexitprob, threshold, *a, **k)
+
+    comp.calculate_snr = fake_snr
+    geom_cls.mcintegral = spy
+    try:
+        np.random.seed(11)
+        with warnings.catch_warnings(), np.errstate(all="ignore"):
+            warnings.simplefilter("ignore")
+            comp.compute(cfg)
+    finally:
+        comp.calculate_snr = real_snr
+        geom_cls.mcintegral = real_mc
+    if "args" in seen and "snr" in seen:
+        trig, cc, thr = seen["args"]
+        if trig.shape != seen["snr"].shape or not np.array_equal(trig, seen["snr"]):
+            k_ = int(np.argmax(trig != seen["snr"])) if trig.shape == seen["snr"].shape else 0
+            bad.append(f"radio: the trigger values handed to mcintegral are not the signal-to-noise ratios the SNR stage returned (event {k_}: SNR {seen['snr'][k_]}, trigger {trig.reshape(-1)[k_] if trig.size else None}; threshold {thr})")
+        if abs(float(cc) - np.cos(cfg.simulation.max_cherenkov_angle)) > 1e-15:
+            bad.append(f"radio: cosine handed to mcintegral is {cc}, not cos(max_cherenkov_angle)")
+        if thr != 5.0:
+            bad.append(f"radio: threshold handed to mcintegral is {thr}, configured SNR threshold is 5.0")
+    return bad
+
+
 def replay(v):
     m = v.get("model") or {}
     job, ob = v.get("job", ""), v["obligation"]
@@ -519,6 +584,8 @@ def replay(v):
             return {"reproduced": False, "key": None, "detail": "real call sequences satisfy the predicate"}
     if job.startswith("wiring("):
         bad = _replay_wiring()
+        if not bad and "radio" in ob:
+            bad = _replay_wiring_spy()
         if bad:
             return {"reproduced": True, "key": "compute(): header keywords do not follow from the stored columns", "detail": "; ".join(bad)}
         return {"reproduced": False, "key": None, "detail": "real compute() runs: header keywords follow from the stored columns"}
